@@ -208,6 +208,9 @@ RSeq    == IF Thorough THEN <<Q(1, 4), Q(1, 2), Q(1, 1), Q(3, 2), Q(2, 1), Q(7, 
            ELSE <<Q(1, 2), Q(3, 2)>>
 SizeSeq == IF Thorough THEN <<Q(1, 2), Q(1, 1), Q(3, 1), Q(9, 2), Q(10, 1), Q(20, 1), Q(70, 1), Q(100, 1)>>
            ELSE <<Q(1, 1), Q(20, 1)>>     \* rmax - rmin
+\* modified Handy: rmax - rmin > 2^m - 1, some sizes just above the bound for every m <= 6
+ModSizeSeq == IF Thorough THEN <<Q(3, 2), Q(2, 1), Q(4, 1), Q(8, 1), Q(10, 1), Q(16, 1), Q(20, 1), Q(32, 1), Q(64, 1), Q(70, 1), Q(100, 1)>>
+              ELSE <<Q(2, 1), Q(4, 1), Q(8, 1), Q(20, 1), Q(70, 1)>>
 BSeq    == IF Thorough THEN <<Q(1, 2), Q(1, 1), Q(3, 1), Q(9, 1), Q(49, 1)>> ELSE <<Q(1, 1), Q(9, 1)>>
 
 \* (rmin, rmax) pairs built from rmin and the size rmax - rmin
@@ -238,7 +241,8 @@ EmptyEnv == [n_ \in {} |-> QZero]
 
 ParamsOf(c_) ==
     CASE c_.cls \in {"Becke", "MultiExp", "Knowles", "Handy"} -> Cross2("rmin", RminSeq, "R", RSeq)
-      [] c_.cls \in {"LinearFinite", "HandyMod"} -> MinMax(RminSeq, SizeSeq)
+      [] c_.cls = "LinearFinite" -> MinMax(RminSeq, SizeSeq)
+      [] c_.cls = "HandyMod" -> MinMax(RminSeq, ModSizeSeq)
       [] c_.cls = "Identity" -> <<EmptyEnv>>
       [] c_.cls = "LinearInfinite" -> WithB(MinMax(RminSeq, SizeSeq), BSeq)
       [] c_.cls = "Exp" -> ExpParams
@@ -261,8 +265,9 @@ Merge(s_, t_) ==    \* merge two ascending sequences of rationals without duplic
 
 \* interior points, ascending.  Unit = [-1, 1]; Half = [0, inf)
 UnitPts == IF Thorough THEN [i_ \in 1..33 |-> Q(i_ - 17, 17)] ELSE [i_ \in 1..9 |-> Q(i_ - 5, 5)]
-\* points with small denominators, used for the identities of order 2 and 3
-UnitSmall == <<Q(-3, 4), Q(-2, 3), Q(-1, 2), Q(-1, 3), Q(-1, 4), Q(0, 1), Q(1, 4), Q(1, 3), Q(1, 2), Q(2, 3), Q(3, 4)>>
+\* points with small denominators: more of the order 2 and 3 identities stay within 32 bits
+UnitSmall == IF Thorough THEN <<Q(-3, 4), Q(-2, 3), Q(-1, 2), Q(-1, 3), Q(-1, 4), Q(0, 1), Q(1, 4), Q(1, 3), Q(1, 2), Q(2, 3), Q(3, 4)>>
+             ELSE <<Q(-1, 2), Q(-1, 3), Q(0, 1), Q(1, 3), Q(1, 2), Q(3, 4)>>
 HalfPts == IF Thorough THEN <<Q(1, 10), Q(1, 4), Q(1, 3), Q(1, 2), Q(2, 3), Q(1, 1), Q(5, 4), Q(3, 2), Q(2, 1), Q(5, 2), Q(3, 1),
                               Q(4, 1), Q(5, 1), Q(6, 1), Q(8, 1), Q(9, 1), Q(12, 1), Q(20, 1), Q(48, 1), Q(100, 1)>>
            ELSE <<Q(1, 4), Q(1, 2), Q(1, 1), Q(3, 2), Q(2, 1), Q(3, 1), Q(4, 1), Q(8, 1), Q(9, 1)>>
@@ -368,15 +373,178 @@ UseInsideDomain == phase = "block" =>
     /\ XLe(EndVal(CD.dom[1], CEnv), EndVal(CD.use[1], CEnv))
     /\ XLe(EndVal(CD.use[2], CEnv), EndVal(CD.dom[2], CEnv))
 
-\* exact values at the lattice points, for the harness (always TRUE)
+\* exact values at the lattice points and images of the reference end points, for the harness
+\* (always TRUE).  Compact encoding of an X-value: <<n, d>> rational, <<>> not representable,
+\* <<"pinf">>, <<"ninf">>, <<"log", a, b, c>> for a + b ln c.
+Enc(v_) == CASE IsOvf(v_) -> <<>>
+             [] IsInf(v_) -> <<v_.t>>
+             [] IsRat(v_) -> v_.a
+             [] IsFin(v_) /\ ~IsRat(v_) -> <<"log", v_.a, v_.b, v_.c>>
 EmitValues == Checking =>
-    PrintT(<<"VAL", cinst, cpar, cpt, Fx,
-             IF FirstOrderOK THEN <<D1x, D2x, D3x, G1x, G2x, G3x>> ELSE <<>>>>)
+    PrintT(<<"VAL", cinst, cpar, cpt, Enc(Fx),
+             IF FirstOrderOK THEN <<Enc(D1x), Enc(D2x), Enc(D3x), Enc(G1x), Enc(G2x), Enc(G3x)>> ELSE <<>>>>)
+EmitEnds == phase = "block" =>
+    PrintT(<<"END", cinst, cpar, Enc(RefImages(cinst, CEnv)[1]), Enc(RefImages(cinst, CEnv)[2]), Direction(cinst, CEnv)>>)
 
 \* non-vacuity witnesses (negated in their own tiny runs: TLC must find a counterexample)
 NoDecreasingMap == ~(phase = "block" /\ Direction(cinst, CEnv) = -1)
 NoHighOrderRoot == ~(Checking /\ ~IsOvf(G3x) /\ ~IsOvf(D3x) /\ InstSeq[cinst].ip >= 2 /\ InstSeq[cinst].cls = "HandyMod")
 NoInfiniteEnd == ~(phase = "block" /\ IsInf(RefImages(cinst, CEnv)[1]))
+
+(***************************************************************************)
+(* C04: transformation of a 1D quadrature grid.                            *)
+(*                                                                         *)
+(* A rule is a finite sequence of nodes and weights on a domain.  The      *)
+(* rational rules are DEFINED here (composite Newton-Cotes rules on        *)
+(* [-1, 1] from their textbook definitions, the unit-spaced integer rule); *)
+(* for any other rule (Gauss-Legendre, ...) the harness takes nodes and    *)
+(* weights from the library and applies the same trees.                    *)
+(*                                                                         *)
+(*   Transform1D(tf, rule):  node_i   = F(x_i)                             *)
+(*                           weight_i = w_i * |D(F)(x_i)|                  *)
+(*                           domain   = ordered image of the rule's domain *)
+(*                                      (cut to the domain of use of tf)   *)
+(*   precondition: rule.domain inside tf.domain, nodes inside the domain   *)
+(*   of use.  When the b-scaled maps are given without b, b is the largest *)
+(*   node of the rule (that is what "taken from the first grid" means).    *)
+(***************************************************************************)
+Rule(name_, n_) == [name |-> name_, n |-> n_]
+RuleNs == IF Thorough THEN <<2, 3, 4, 5, 6, 7, 8, 9, 10, 11, 12, 20, 40>> ELSE <<2, 5, 10>>
+OddNs  == IF Thorough THEN <<3, 5, 7, 9, 11, 21, 41>> ELSE <<3, 5, 9>>
+RuleSeq == [i_ \in 1..Len(RuleNs) |-> Rule("Trapezoidal", RuleNs[i_])]
+           \o [i_ \in 1..Len(RuleNs) |-> Rule("MidPoint", RuleNs[i_])]
+           \o [i_ \in 1..Len(OddNs) |-> Rule("Simpson", OddNs[i_])]
+           \o [i_ \in 1..Len(RuleNs) |-> Rule("UniformInteger", RuleNs[i_])]
+
+\* composite trapezoid, midpoint and Simpson rules on [-1, 1] with n nodes; integers 0..n-1
+RuleNodes(ru_) ==
+    CASE ru_.name \in {"Trapezoidal", "Simpson"} -> [i_ \in 1..ru_.n |-> QSub(Q(2 * (i_ - 1), ru_.n - 1), QOne)]
+      [] ru_.name = "MidPoint" -> [i_ \in 1..ru_.n |-> QSub(Q(2 * i_ - 1, ru_.n), QOne)]
+      [] ru_.name = "UniformInteger" -> [i_ \in 1..ru_.n |-> QI(i_ - 1)]
+RuleWeights(ru_) ==
+    CASE ru_.name = "Trapezoidal" ->      \* h = 2/(n-1); h/2 at the two ends
+            [i_ \in 1..ru_.n |-> IF i_ \in {1, ru_.n} THEN Q(1, ru_.n - 1) ELSE Q(2, ru_.n - 1)]
+      [] ru_.name = "MidPoint" -> [i_ \in 1..ru_.n |-> Q(2, ru_.n)]      \* h = 2/n
+      [] ru_.name = "Simpson" ->          \* h = 2/(n-1), n odd; h/3 * (1, 4, 2, 4, ..., 2, 4, 1)
+            [i_ \in 1..ru_.n |-> QMul(Q(2, 3 * (ru_.n - 1)),
+                                      QI(IF i_ \in {1, ru_.n} THEN 1 ELSE IF i_ % 2 = 0 THEN 4 ELSE 2))]
+      [] ru_.name = "UniformInteger" -> [i_ \in 1..ru_.n |-> QOne]
+RuleDomain(ru_) == IF ru_.name = "UniformInteger" THEN <<Zero, PInfE>> ELSE <<MinusOne, One>>
+RuleDegree(ru_) == CASE ru_.name \in {"Trapezoidal", "MidPoint"} -> 1 [] ru_.name = "Simpson" -> 3
+                     [] ru_.name = "UniformInteger" -> -1
+MaxNode(ru_) == RuleNodes(ru_)[ru_.n]
+
+\* parameter sets of C04: those of C03 plus, for the b-scaled maps, sets WITHOUT b
+ParamLattice4 == Force([j_ \in 1..NInst |->
+    IF Decls[j_].binfer /\ InstSeq[j_].cls = "LinearInfinite" THEN ParamLattice[j_] \o MinMax(RminSeq, SizeSeq)
+    ELSE IF InstSeq[j_].cls = "Exp"
+         THEN ParamLattice[j_] \o <<[rmin |-> Q(1, 4), rmax |-> Q(4, 1)], [rmin |-> Q(1, 9), rmax |-> Q(9, 1)]>>
+    ELSE IF InstSeq[j_].cls = "Power"
+         THEN ParamLattice[j_] \o <<[rmin |-> Q(1, 4), rmax |-> Q(4, 1)], [rmin |-> Q(1, 5), rmax |-> Q(125, 1)]>>
+    ELSE ParamLattice[j_]])
+EffEnv(j_, env_, ru_) == IF Decls[j_].binfer /\ "b" \notin DOMAIN env_ THEN env_ @@ ("b" :> MaxNode(ru_)) ELSE env_
+
+\* precondition of Transform1D
+Compatible(j_, env_, ru_) ==
+    LET e_ == EffEnv(j_, env_, ru_) IN
+    /\ XLe(EndVal(Decls[j_].dom[1], e_), EndVal(RuleDomain(ru_)[1], e_))
+    /\ XLe(EndVal(RuleDomain(ru_)[2], e_), EndVal(Decls[j_].dom[2], e_))
+    /\ \A i_ \in 1..ru_.n : /\ XLe(EndVal(Decls[j_].use[1], e_), XQ(RuleNodes(ru_)[i_]))
+                             /\ XLe(XQ(RuleNodes(ru_)[i_]), EndVal(Decls[j_].use[2], e_))
+    \* the upper end of the use domain of Hyperbolic is a pole, not a node
+    /\ (InstSeq[j_].cls = "Hyperbolic" => XLt(XQ(MaxNode(ru_)), EndVal(Decls[j_].use[2], e_)))
+    /\ (Decls[j_].binfer => QSgn(e_["b"]) > 0)
+
+XMin(u_, v_) == IF XLe(u_, v_) THEN u_ ELSE v_
+XMax(u_, v_) == IF XLe(u_, v_) THEN v_ ELSE u_
+\* the transformed grid (exact; singular end nodes give infinite nodes / weights)
+Transform1D(j_, env_, ru_) ==
+    LET e_ == EffEnv(j_, env_, ru_)
+        xs_ == RuleNodes(ru_)
+        ws_ == RuleWeights(ru_)
+        lo_ == XMax(EndVal(RuleDomain(ru_)[1], e_), EndVal(Decls[j_].use[1], e_))
+        hi_ == XMin(EndVal(RuleDomain(ru_)[2], e_), EndVal(Decls[j_].use[2], e_))
+        a_ == AtX(Trees[j_].F, e_, lo_)
+        b_ == AtX(Trees[j_].F, e_, hi_)
+    IN [nodes |-> [i_ \in 1..ru_.n |-> AtX(Trees[j_].F, e_, XQ(xs_[i_]))],
+        jac |-> [i_ \in 1..ru_.n |-> AtX(Trees[j_].d1, e_, XQ(xs_[i_]))],
+        weights |-> [i_ \in 1..ru_.n |-> XMul(XQ(ws_[i_]), XAbs(AtX(Trees[j_].d1, e_, XQ(xs_[i_]))))],
+        domain |-> IF XLe(a_, b_) THEN <<a_, b_>> ELSE <<b_, a_>>]
+
+PickBlock4 ==
+    /\ phase = "idle"
+    /\ \E j_ \in 1..NInst : \E p_ \in 1..Len(ParamLattice4[j_]) : cinst' = j_ /\ cpar' = p_
+    /\ phase' = "block" /\ UNCHANGED <<cpt, crule>>
+PickRule ==
+    /\ phase = "block"
+    /\ \E q_ \in 1..Len(RuleSeq) :
+          /\ Compatible(cinst, ParamLattice4[cinst][cpar], RuleSeq[q_])
+          /\ crule' = q_
+    /\ phase' = "grid" /\ UNCHANGED <<cinst, cpar, cpt>>
+Next4 == PickBlock4 \/ PickRule
+Spec4 == Init /\ [][Next4]_vars
+
+Gridding == phase = "grid"
+CRule == RuleSeq[crule]
+CEnv4 == EffEnv(cinst, ParamLattice4[cinst][cpar], CRule)
+CGrid == Transform1D(cinst, ParamLattice4[cinst][cpar], CRule)
+Idx == 1..CRule.n
+NotExp == InstSeq[cinst].cls # "Exp"       \* |D(F)| of Exp is a logarithm value: sign yes, reciprocal no
+
+\* the rules themselves: exact on the monomials up to their degree (base of the transport)
+QSumF(f_, n_) == LET RECURSIVE S_(_) S_(i_) == IF i_ > n_ THEN QZero ELSE QAdd(f_[i_], S_(i_ + 1)) IN S_(1)
+BaseRuleExact == Gridding =>
+    \A k_ \in 0..RuleDegree(CRule) :
+        QSumF([i_ \in Idx |-> QMul(RuleWeights(CRule)[i_], QPow(RuleNodes(CRule)[i_], k_))], CRule.n)
+            = (IF k_ % 2 = 0 THEN Q(2, k_ + 1) ELSE QZero)
+\* non-negative weights stay non-negative (also for a decreasing map)
+WeightsNonNegative == Gridding => \A i_ \in Idx : IsOvf(CGrid.weights[i_]) \/ XSgn(CGrid.weights[i_]) >= 0
+\* the new domain is ordered and contains every new node
+DomainOrdered == Gridding => XCmp(CGrid.domain[1], CGrid.domain[2]) \in {-1, 9}
+NodesInDomain == Gridding => \A i_ \in Idx :
+    /\ XCmp(CGrid.domain[1], CGrid.nodes[i_]) \in {-1, 0, 9}
+    /\ XCmp(CGrid.nodes[i_], CGrid.domain[2]) \in {-1, 0, 9}
+\* the new domain is the image of the codomain part that the rule covers: for the rules on the
+\* full reference interval it is the codomain itself
+DomainIsCodomain == Gridding /\ ~Decls[cinst].binfer =>
+    CGrid.domain = <<EndVal(Decls[cinst].cod[1], CEnv4), EndVal(Decls[cinst].cod[2], CEnv4)>>
+\* b taken from the grid: the last node is sent to rmax
+InferredBHitsRmax == Gridding /\ Decls[cinst].binfer /\ "b" \notin DOMAIN ParamLattice4[cinst][cpar] =>
+    XEqU(CGrid.nodes[CRule.n], XQ(CEnv4["rmax"]))
+\* for a decreasing map the signed products w_i * D(F)(x_i) are negative: the absolute value is
+\* what keeps the weights non-negative
+SignedWeightsFollowDirection == Gridding /\ NotExp => \A i_ \in Idx :
+    IsOvf(CGrid.jac[i_]) \/ XSgn(CGrid.jac[i_]) = 0 \/ XSgn(CGrid.jac[i_]) = Direction(cinst, CEnv4)
+\* transforming back with the inverse map (role swap) returns the rule: nodes G(F(x_i)) = x_i,
+\* weights w_i |D(F)(x_i)| |D(G)(F(x_i))| = w_i   (nodes with a finite, non-zero Jacobian only)
+GridRoundTrip == Gridding /\ NotExp => \A i_ \in Idx :
+    IsInf(CGrid.nodes[i_]) \/ IsInf(CGrid.weights[i_]) \/ CGrid.weights[i_] = XI(0) \/
+    /\ XEqU(AtR(Trees[cinst].G, CEnv4, CGrid.nodes[i_]), XQ(RuleNodes(CRule)[i_]))
+    /\ XEqU(XMul(CGrid.weights[i_], XAbs(AtR(Trees[cinst].g1, CEnv4, CGrid.nodes[i_]))), XQ(RuleWeights(CRule)[i_]))
+\* exactness is transported by the linear map: sum w'_i r_i^k = (rmax^(k+1) - rmin^(k+1)) / (k+1)
+XSumF(f_, n_) == LET RECURSIVE S_(_) S_(i_) == IF i_ > n_ THEN XI(0) ELSE XAdd(f_[i_], S_(i_ + 1)) IN S_(1)
+MomentTree(k_) == Div(Sub(Pow(PRmax, k_ + 1), Pow(PRmin, k_ + 1)), CI(k_ + 1))
+ExactnessTransport == Gridding /\ InstSeq[cinst].cls = "LinearFinite" =>
+    \A k_ \in 0..RuleDegree(CRule) :
+        XEqU(XSumF([i_ \in Idx |-> XMul(CGrid.weights[i_], XPowI(CGrid.nodes[i_], k_))], CRule.n),
+             EndVal(MomentTree(k_), CEnv4))
+\* the exact grid, for the harness (always TRUE)
+EmitGrid == Gridding =>
+    PrintT(<<"GRID", cinst, cpar, crule, [i_ \in Idx |-> Enc(CGrid.nodes[i_])], [i_ \in Idx |-> Enc(CGrid.weights[i_])],
+             <<Enc(CGrid.domain[1]), Enc(CGrid.domain[2])>>, Direction(cinst, CEnv4)>>)
+
+\* non-vacuity witnesses for C04 (negated in their own runs)
+NoNegativeJacobian == ~(Gridding /\ \E i_ \in Idx : ~IsOvf(CGrid.jac[i_]) /\ XSgn(CGrid.jac[i_]) < 0)
+NoInfiniteNode == ~(Gridding /\ \E i_ \in Idx : IsInf(CGrid.nodes[i_]))
+NoInferredB == ~(Gridding /\ Decls[cinst].binfer /\ "b" \notin DOMAIN ParamLattice4[cinst][cpar])
+
+\* Gauss-Legendre obligations (discharged by the harness): LinearFinite(rmin, rmax) applied to the
+\* n-point Gauss-Legendre rule integrates r^k over [rmin, rmax] exactly for k <= 2n - 1
+GLNs == IF Thorough THEN <<2, 3, 4, 5, 6, 8, 10, 12, 16, 20, 30, 40>> ELSE <<2, 5, 10>>
+GLObligations == [i_ \in 1..Len(GLNs) |-> [n |-> GLNs[i_], kmax |-> 2 * GLNs[i_] - 1,
+                                            moments |-> [k1_ \in 1..(2 * GLNs[i_]) |-> MomentTree(k1_ - 1)]]]
+\* the Jacobian weight as a tree in x and w (for rules whose nodes are not rational)
+WeightTree(j_) == Mul(V("w"), AbsE(Trees[j_].d1))
 
 (***************************************************************************)
 (* Emission of the derived trees and lattices.                             *)
@@ -385,7 +553,13 @@ Emission ==
     [instances |-> [j_ \in 1..NInst |->
         [cls |-> InstSeq[j_].cls, ip |-> InstSeq[j_].ip, trees |-> Trees[j_], decl |-> Decls[j_],
          inv_trees |-> InverseTrees(Trees[j_]), inv_decl |-> InverseDecl(Decls[j_]),
-         params |-> ParamLattice[j_], points |-> PointLattice[j_]]],
+         wtree |-> WeightTree(j_),
+         inv_wtree |-> Mul(V("w"), AbsE(InverseTrees(Trees[j_]).d1)),
+         params |-> ParamLattice[j_], points |-> PointLattice[j_], params4 |-> ParamLattice4[j_]]],
+     rules |-> [q_ \in 1..Len(RuleSeq) |->
+        [name |-> RuleSeq[q_].name, n |-> RuleSeq[q_].n, nodes |-> RuleNodes(RuleSeq[q_]),
+         weights |-> RuleWeights(RuleSeq[q_]), domain |-> RuleDomain(RuleSeq[q_])]],
+     gl |-> GLObligations,
      trim |-> [mant |-> 1, exp10 |-> 16]]
 
 ASSUME EmitFile = "" \/ JsonSerialize(EmitFile, Emission)
